@@ -375,6 +375,18 @@ func (fp *factsProg) analyse(name, kind, typeName string, roots []*ssa.Function,
 					cc := x.Common()
 					if callee := cc.StaticCallee(); callee != nil && !inModule(callee) {
 						fname := funcName(callee)
+						// shared state reached through sync / sync/atomic: a store is a store, however well synchronised
+						if (strings.HasPrefix(fname, "sync/atomic.") || strings.HasPrefix(fname, "sync.Map.") || strings.HasPrefix(fname, "sync.Pool.") || strings.HasPrefix(fname, "atomic.")) && len(cc.Args) > 0 && !isInit {
+							mutating := false
+							for _, m := range []string{"Store", "Swap", "CompareAndSwap", "Add", "And", "Or", "LoadOrStore", "LoadAndDelete", "Delete", "Put", "Range", "Clear"} {
+								if strings.Contains(fname, m) {
+									mutating = true
+								}
+							}
+							if g, ok := rootOf(cc.Args[0], 0).(*ssa.Global); ok && mutating {
+								lf.GlobalWrites = append(lf.GlobalWrites, fp.pos(x.Pos())+" "+fname+" on "+g.Name())
+							}
+						}
 						if strings.HasPrefix(fname, "sort.") && len(cc.Args) > 0 {
 							r := rootOf(cc.Args[0], 0)
 							if p, ok := r.(*ssa.Parameter); ok {
@@ -585,6 +597,29 @@ func init() {
 		}
 		out.Data["facts"] = all
 		out.Data["extra"] = extra
+		return out.Emit()
+	}
+}
+
+// statusfacts: per lint, the status constants that can flow into a result and the sites where a non-constant does
+func init() {
+	commands["statusfacts"] = func(args []string) error {
+		out := NewOutput()
+		facts, _, err := computeFacts()
+		if err != nil {
+			return err
+		}
+		type sf struct {
+			Name          string
+			MayReturn     []int
+			StatusUnknown []string
+			NilResult     []string
+		}
+		var l []sf
+		for _, f := range facts {
+			l = append(l, sf{f.Name, f.MayReturn, f.StatusUnknown, f.NilResult})
+		}
+		out.Data["facts"] = l
 		return out.Emit()
 	}
 }
